@@ -11,6 +11,7 @@ import GoImap.Lemmas.NumSetContains
 import GoImap.Lemmas.NumSetNums
 import GoImap.Lemmas.NumSetInsert
 import GoImap.Lemmas.NumSetOps
+import GoImap.Lemmas.NumSetPrint
 namespace GoImap.C15
 open GoImap.NumSet GoImap.NumSetSpec
 
@@ -169,5 +170,23 @@ theorem dynamic_iff (ops : List Op) (hok : ∀ o ∈ ops, OpOk o) :
 
 example : contains (NumSet.insert [⟨1, 3⟩, ⟨7, 9⟩] ⟨4, 5⟩) 5 = true ∧
     contains [⟨1, 3⟩, ⟨7, 9⟩] 5 = false ∧ (⟨4, 5⟩ : Range).contains 5 = true := by decide
+
+/-! ### 6. the text form of a canonical set parses back to the same set -/
+
+/-- decimal round trip: `digits n` is a non-empty string of decimal digits (hence without
+    `,`, `:` or `*`), without a leading `0` for `n > 0`, and its value is `n` -/
+theorem digits_round_trip (n : Nat) :
+    valOf (digits n) = n ∧ (digits n).all isDigit = true ∧ digits n ≠ [] ∧
+      (0 < n → (digits n).head? ≠ some '0') ∧ ',' ∉ digits n ∧ ':' ∉ digits n :=
+  ⟨(digits_spec n).1, all_isDigit_of _ (digits_spec n).2.1, (digits_spec n).2.2.1,
+    (digits_spec n).2.2.2, digits_no n ',' not_isDig_comma, digits_no n ':' not_isDig_colon⟩
+
+theorem parse_print (s : NumSet.Set) (hc : canonical s = true) (hne : s ≠ []) :
+    parseSet (toChars s) = some s :=
+  parseSet_toChars s ((canonical_iff s).1 hc) hne
+
+example : canonical [⟨1, 3⟩, ⟨5, 5⟩, ⟨4294967295, 0⟩] = true ∧
+    toStr [⟨1, 3⟩, ⟨5, 5⟩, ⟨4294967295, 0⟩] = "1:3,5,4294967295:*" := by
+  refine ⟨by decide, by decide +kernel⟩
 
 end GoImap.C15
